@@ -65,12 +65,14 @@ theorem walk_confined : ∀ e, ∀ a ∈ (walk T env e).1, Allowed T env a
     · rename_i fn
       split
       · rename_i hmem
-        refine bind_all' _ _ _ (by simp [Allowed, hmem]) fun fv hfv => ?_
-        have hfv' : fv = env.lookup fn := by simpa using hfv.symm
-        refine bind_all _ _ _ (walkList_confined args) fun as =>
-          bind_all _ _ _ (walkKws_confined kn kv) fun ks => ?_
-        simp only [act_fst, List.mem_singleton, forall_eq, Allowed]
-        exact ⟨fn, hmem, hfv'⟩
+        split
+        · simp
+        · refine bind_all' _ _ _ (by simp [Allowed, hmem]) fun fv hfv => ?_
+          have hfv' : fv = env.lookup fn := by simpa using hfv.symm
+          refine bind_all _ _ _ (walkList_confined args) fun as =>
+            bind_all _ _ _ (walkKws_confined kn kv) fun ks => ?_
+          simp only [act_fst, List.mem_singleton, forall_eq, Allowed]
+          exact ⟨fn, hmem, hfv'⟩
       · simp
     · simp
   | .list es => by
@@ -171,10 +173,12 @@ theorem walk_len : ∀ e, (walk T env e).1.length ≤ 3 * e.nodes - 2
     unfold walk; simp only [Expr.nodes]
     split
     · split
-      · refine length_bind_le' 1 (3 * nodesList args + (3 * nodesList kv + 1)) _ (by simp) (fun fv =>
-          length_bind_le' _ _ _ (walkList_len args) (fun as =>
-            length_bind_le' _ 1 _ (walkKws_len kn kv) (fun ks => by simp) (Nat.le_refl _)) (Nat.le_refl _)) ?_
-        simp only [Expr.nodes]; omega
+      · split
+        · simp
+        · refine length_bind_le' 1 (3 * nodesList args + (3 * nodesList kv + 1)) _ (by simp) (fun fv =>
+            length_bind_le' _ _ _ (walkList_len args) (fun as =>
+              length_bind_le' _ 1 _ (walkKws_len kn kv) (fun ks => by simp) (Nat.le_refl _)) (Nat.le_refl _)) ?_
+          simp only [Expr.nodes]; omega
       · simp
     · simp
   | .list es => by
@@ -314,10 +318,12 @@ theorem strict_fails : ∀ e n, n ∈ e.strictSub → (walk T env n).failed → 
     simp only [Expr.strictSub, List.mem_append] at h
     split
     · split
-      · refine bind_failed_right _ _ fun fv => ?_
-        rcases h with h | h
-        · exact bind_failed_left _ _ (strictList_fails args n h hf)
-        · exact bind_failed_right _ _ fun as => bind_failed_left _ _ (strictKws_fails kn kv n h hf)
+      · split
+        · exact failed_fail _
+        · refine bind_failed_right _ _ fun fv => ?_
+          rcases h with h | h
+          · exact bind_failed_left _ _ (strictList_fails args n h hf)
+          · exact bind_failed_right _ _ fun as => bind_failed_left _ _ (strictKws_fails kn kv n h hf)
       · exact failed_fail _
     · exact failed_fail _
   | .list es, n, h, hf => by
